@@ -27,6 +27,7 @@ JMatch(d, x) ==
   ELSE IF x.k = "int" THEN d.k = "num" /\ d.isint /\ d.i = x.b
   ELSE IF x.k = "dbl" THEN d.k = "num" /\ d.f = x.b
   ELSE IF x.k = "intstr" THEN d.k = "str" /\ d.isint /\ d.i = x.b
+  ELSE IF x.k = "intany" THEN d.k \in {"str", "num"} /\ d.isint /\ d.i = x.b
   ELSE IF x.k \in {"str", "b64"} THEN d.k = "str" /\ d.b = x.b          \* "b64": a string holding base64 text
   ELSE IF x.k = "arr" THEN d.k = "arr" /\ Len(d.e) = Len(x.e) /\ \A i \in 1..Len(x.e) : JMatch(d.e[i].v, x.e[i].v)
   ELSE LET np == IF "np" \in DOMAIN x THEN x.np ELSE Len(x.e)
